@@ -213,6 +213,9 @@ pub open spec fn stbl_of(t: Mp4Track) -> StblBox { t.trak.mdia.minf.stbl }
 pub open spec fn track_parsed(t: Mp4Track) -> bool {
     &&& stbl_parsed(stbl_of(t))
     &&& t.trafs@.len() == t.moof_offsets@.len()
+    &&& trafs_parsed(t.trafs@)
+    // domain assumption (not a parser guarantee): fewer than 2^32 track fragments per track (>= 64 GiB of traf headers otherwise)
+    &&& t.trafs@.len() <= 0xffff_ffff
 }
 
 pub open spec fn track_plain(t: Mp4Track) -> bool { t.trafs@.len() == 0 }
@@ -346,4 +349,9 @@ pub proof fn lemma_stts_cover_exists(e: Seq<SttsEntry>, n: int, k: int)
             lemma_stts_cover_exists(e, n - 1, k);
         }
     }
+}
+
+/// representation invariant of Mp4Reader: established by read_header / read_fragment_header, preserved by every method
+pub open spec fn reader_wf<R>(m: Mp4Reader<R>) -> bool {
+    forall|id: u32| #[trigger] m.tracks@.contains_key(id) ==> track_parsed(m.tracks@[id])
 }
